@@ -267,6 +267,12 @@ func VxH_C01_step(op int) {
 		r.del(k1)
 		r.del(k2)
 	}
+	pv, pok := c.items.Load(k)
+	xsync.VxObserve("post.ok", pok)
+	if pok {
+		xsync.VxObserve("post.v", pv.(item).v)
+		xsync.VxObserve("post.e", pv.(item).e)
+	}
 	xsync.VxAssert(vxCoupled(c, r, k1, now), "post-state agrees with reference on k1")
 	xsync.VxAssert(vxCoupled(c, r, k2, now), "post-state agrees with reference on k2")
 	xsync.VxAssert(vxCoupled(c, r, k, now), "post-state agrees with reference on k")
